@@ -122,10 +122,8 @@ func NameClass(role, name string) string {
 	}
 	gn := GoCamelCase(name)
 	if staticGoNames[gn] {
-		// keyed by the Go identifier the generators derive (plus the spelling if it differs)
-		if gn != name {
-			return gn + "~" + name
-		}
+		// keyed by the Go identifier the generators derive: nodes, Nodes and
+		// _nodes collide with the same generated identifier
 		return gn
 	}
 	if name[0] == '_' || keywordLike[strings.ToLower(name)] {
